@@ -165,6 +165,14 @@ def r7_election(ctx):
     _sub(ctx, c04.r6_top_m, "C05.R7", only=lambda o: "GeneralRating" in o.construct or "selector consumes" in o.construct)
     f = ctx.prog.find_func("GeneralRating._is_finished")
     ctx.consult(f)
+    # replaying the single round must not record again (shared with C09.R2)
+    from rules import c09
+    sub = type(ctx)(ctx.prog, ctx.prop, ctx.tier)
+    c09.r2_writes_guarded(sub)
+    for o in sub.obs:
+        if o.function.endswith("GeneralRating._run_step"):
+            o.rule = "C05.R7"
+            ctx.obs.append(o)
 
 
 RULES = [
@@ -191,6 +199,7 @@ FAULTS = [
     ("limited per-candidate limit 1", [(RT, "super().__init__(profile, m=m, L=k, k=k, tiebreak=tiebreak)", "super().__init__(profile, m=m, L=1, k=k, tiebreak=tiebreak)")], "C05.R5"),
     ("L stored halved", [(RT, "        self.L = L\n", "        self.L = L / 2\n")], "C05.R5"),
     ("bloc plurality truthiness default", [(AP, "        if k is None:\n            k = m", "        if not k:\n            k = m")], "C05.R"),
+    ("rating step records by default", [(RT, "        self, profile: PreferenceProfile, prev_state: ElectionState, store_states=False\n    ) -> PreferenceProfile:\n        \"\"\"\n        Run one step of an election from the given profile and previous state.\n\n        Args:", "        self, profile: PreferenceProfile, prev_state: ElectionState, store_states=True\n    ) -> PreferenceProfile:\n        \"\"\"\n        Run one step of an election from the given profile and previous state.\n\n        Args:")], "C05.R7"),
     ("rating elects m+1", [(RT, "prev_state.remaining, self.m, profile=profile, tiebreak=self.tiebreak", "prev_state.remaining, self.m + 1, profile=profile, tiebreak=self.tiebreak")], None),
 ]
 BENIGN = [
